@@ -2,7 +2,7 @@
 """C09 — the product records its provenance and is a complete GenBank record."""
 EXTRA_OBLIGATION_FILES = ("Props/C08_src.v", "Props/C09_src.v",)
 
-from harness import annot, common, gens, pattern, recutil
+from harness import srcrun, annot, common, gens, pattern, recutil
 from harness.props import C08, C11
 
 LEVEL_NOTE = ("Theorems: the product is the concatenation of the fragments with their feature tables laid out one after "
@@ -93,9 +93,13 @@ def run_two_level(case):
         for f, src in zip(d["features"], ent.record.features):
             if src.type == "source" and "plasmid" in src.qualifiers:
                 f["plasmid"] = src.qualifiers["plasmid"]
+    src2_inputs = [srcrun.dump_input(mod2), srcrun.dump_input(vec2)]
     obs2, prod2 = implutil.observe_assembly(vec2, [mod2], id="p2", name="p2")
-    out = {"obs1": {"out": "product"}, "inputs1": inputs1, "product1": annot.product_view(prod1), "obs2": obs2,
-           "inputs2": in2, "v2": {"seq": v2["seq"]}}
+    out = {}
+    out.update({"src2_inputs": src2_inputs, "src2_obs": obs2,
+                "src2_product": srcrun.dump_product(prod2) if prod2 is not None else None})
+    out.update({"obs1": {"out": "product"}, "inputs1": inputs1, "product1": annot.product_view(prod1), "obs2": obs2,
+           "inputs2": in2, "v2": {"seq": v2["seq"]}})
     if prod2 is None:
         return out
     view = annot.product_view(prod2)
@@ -181,6 +185,27 @@ def run(ctx):
     for b in sorted(set(idx[x] for x in bad)):
         ctx.disagreements.append({"case": cases[b], "observable": "sequence and ordered feature table of a level-1 / level-2 product vs "
                                                                    "AnnotPipeline.annot_product", "model_fn": "AnnotPipeline.annot_product"})
+    # level 2 through vector.assemble as regenerated from the source: its module is the level-1 product, a record that
+    # carries provenance features, a reference list, the generated annotations and comment
+    terms, idx = [], []
+    for i, (c, r) in enumerate(zip(cases, res)):
+        if r.get("src2_inputs") is None or r.get("src2_obs") is None:
+            continue
+        try:
+            terms.append(srcrun.c_case(ctx, (gens.generic_spec("vector", c["nenz"]), r["src2_inputs"][1]),
+                                       [(c["next"], r["src2_inputs"][0])], {"id": "p2", "name": "p2"},
+                                       r["src2_obs"], r.get("src2_product")))
+            idx.append(i)
+        except (KeyError, ValueError) as e:
+            ctx.count("src-run-skipped:" + str(e)[:40])
+    ctx.count("src-runs-level-2", len(terms))
+    bad = common.coq_eval_cases(ctx, "srcrun2", srcrun.IMPORTS, terms, "src_run_check", per_file=40)
+    for b in bad:
+        i = idx[b]
+        ctx.disagreements.append({"case": cases[i], "impl": {"obs": res[i].get("src2_obs"), "product": res[i].get("src2_product")},
+                                  "observable": "level 2 through vector.assemble as regenerated from the source (run_assemble): "
+                                                "whole product record vs the implementation's",
+                                  "model_fn": "Gen/Src.v run_assemble"})
 
 
 def replay(ctx, data):
